@@ -18,6 +18,7 @@ def layouts(tier):
         R.layout("base-robot+inherit", [c("c0", on="base", extra_src=INJ), c("c1", extra_src=INJ), c("c2", inherit="c0")], auto=False, p_us=15625, robot_base=True),
         R.layout("three-noauto", [c("c2", extra_src=INJ), c("c0", extra_src=INJ), c("c1", extra_src=INJ)], auto=False, teleop_in_auto=True, p_us=20000),
         R.layout("one+auto", [c("c0", extra_src=INJ)], auto=True, p_us=5000),
+        R.layout("same-class-pair", [c("c0", extra_src=INJ), c("c1", extra_src=INJ), c("c2", same_class_as="c0")], auto=True, p_us=20000),
     ]
     if tier == "thorough":
         import itertools
